@@ -1182,6 +1182,12 @@ func TestVerifC12(t *testing.T) {
 		e.e2e(vC12Case{allow: nil, remote: peerIn, local: loc, hdr: &hh, hbytes: h.encode(), payload: vC12Payload(r, 40), splitAll: true})
 		e.e2e(vC12Case{allow: []string{"10.0.0.0/8", "::1/128"}, remote: peerIn, local: loc, hdr: &hh, hbytes: h.encode(), payload: vC12Payload(r, sizes[i%len(sizes)]), splitAll: i%4 == 0})
 		e.e2e(vC12Case{allow: []string{"192.168.0.0/16", "2001:db8::/32"}, remote: peerIn, local: loc, hdr: &hh, hbytes: h.encode(), payload: vC12Payload(r, 10)})
+		// bare addresses in the allow list are single-host ranges: a neighbour stays outside, the host itself is inside
+		e.e2e(vC12Case{allow: []string{"10.0.0.5", "2001:db8:1::5"}, remote: peerIn, local: loc, hdr: &hh, hbytes: h.encode(), payload: vC12Payload(r, 10)})
+		if i%3 == 0 {
+			e.e2e(vC12Case{allow: []string{"10.0.0.5", "2001:db8:1::5"}, remote: &net.TCPAddr{IP: net.IPv4(10, 0, 0, 5).To4(), Port: 40000}, local: loc, hdr: &hh, hbytes: h.encode(), payload: vC12Payload(r, 10)})
+			e.e2e(vC12Case{allow: []string{"::1", "10.0.0.5"}, remote: &net.TCPAddr{IP: net.ParseIP("::2"), Port: 40000}, local: loc, hdr: &hh, hbytes: h.encode(), payload: vC12Payload(r, 10)})
+		}
 	}
 	// header-less peers outside the list: arbitrary first bytes pass untouched
 	for _, s := range []string{"GET / HTTP/1.1\r\n\r\n", "\x16\x03\x01\x00\x05hello", "", "PROXY garbage"} {
